@@ -318,10 +318,10 @@ def finish(case):
             rbytes += dup * 3 * sends * _answer_size(ws[1] if len(ws) > 1 else "")
         elif ws and ws[0] == "raw":
             rbytes += len(ws[2]) // 2 if len(ws) > 2 else 0
-        if op == "run @":
+        if op in ("run @", "runw @"):
             # every outstanding query may be (re)transmitted on up to 3 connections
             need = 30 + 3 * _calls(wpat, 3 * 40 * sends) + 2 * _calls(chunk, rbytes + 4)
-            out.append("run %d" % min(need, 20000))
+            out.append("%s %d" % (op.split()[0], min(need, 20000)))
             rbytes = 0      # everything queued has been read when the loop went idle
         else:
             out.append(op)
@@ -340,6 +340,9 @@ def gen_c20(rng, tier, n):
             c = gen_mixed(rng, tier)
         else:
             c = gen_junk(rng, tier)
+        if rng.random() < 0.35:
+            # event loop that reports writability only while the library asks for it
+            c = c.replace("run @", "runw @")
         out.append(finish(c))
     return out
 
@@ -418,6 +421,19 @@ def gen_c10_one(rng, tier):
                 ops.append("fail %s %d %s" % (call, rng.choice([1, 1, 1, 2, 3]), rng.choice(ERRNOS[call])))
             T += 1
             kind = rng.random()
+            if rng.random() < 0.25:
+                # something the application does from inside the completion callback of this
+                # request, i.e. while read_answers() is still working on the connection the answer
+                # came in on: cancel everything, drop the server, or start a request whose write
+                # fails (the connection is then closed underneath read_answers())
+                cbop = rng.random()
+                if cbop < 0.35:
+                    ops.append("oncb %d cancel" % T)
+                elif cbop < 0.65:
+                    ops.append("oncb %d setservers,%s" % (T, rng.choice(["10.0.0.9", "10.0.0.8:5353", "10.0.0.2"])))
+                else:
+                    ops.append("oncb %d fail,sendto,1,%s" % (T, rng.choice(["EPIPE", "ECONNRESET", "ENETUNREACH"])))
+                    ops.append("oncb %d send,%d,r%dx.example,IN,A,rd" % (T, 500 + T, T))
             if kind < 0.7:
                 ops.append("send %d c%dx.example IN %s rd" % (T, T, rng.choice(["A", "AAAA", "TXT"])))
             elif kind < 0.9:
@@ -465,4 +481,10 @@ def gen_c10_one(rng, tier):
 
 
 def gen_c10(rng, tier, n):
-    return [gen_c10_one(rng, tier) for _ in range(n)]
+    out = []
+    for _ in range(n):
+        c = gen_c10_one(rng, tier)
+        if rng.random() < 0.3:
+            c = c.replace("run 300", "runw 300")
+        out.append(c)
+    return out
